@@ -14,7 +14,6 @@ import (
 	"sort"
 	"strings"
 	"time"
-
 )
 
 type ViolationRec struct {
@@ -286,22 +285,32 @@ func mainReplay(args []string) int {
 		fmt.Fprintln(os.Stderr, "simexec: replay file names unknown property", rf.Property)
 		return 2
 	}
+	var runs []RunRecord
+	if !*quiet {
+		recordRuns = &runs
+	}
 	v := judgeSafely(p, rf.Scenario)
+	recordRuns = nil
 	if v.Trouble != "" {
 		fmt.Fprintln(os.Stderr, "simexec: trouble:", v.Trouble)
 		return 2
 	}
 	if !*quiet {
-		// event trace of the (first) execution, for the reader
-		o := Execute(rf.Scenario, firstSched(rf.Scenario))
-		fmt.Println("--- event trace (first execution) ---")
-		for _, l := range o.Trace {
-			fmt.Println("  ", l)
-		}
-		fmt.Println("--- operation results ---")
-		for i, r := range o.Ops {
-			rb, _ := json.Marshal(r)
-			fmt.Printf("  op%d %s\n", i, clip(string(rb), 1500))
+		for i, r := range runs {
+			fmt.Printf("=== execution %d of %d ===\n", i+1, len(runs))
+			for j, op := range r.Ops {
+				ob, _ := json.Marshal(op)
+				fmt.Printf("  op%d: %s\n", j, clip(string(ob), 700))
+			}
+			fmt.Println("  --- event trace ---")
+			for _, l := range r.Outcome.Trace {
+				fmt.Println("    ", clip(l, 200))
+			}
+			fmt.Println("  --- operation results ---")
+			for j, res := range r.Outcome.Ops {
+				rb, _ := json.Marshal(res)
+				fmt.Printf("    op%d %s\n", j, clip(string(rb), 1500))
+			}
 		}
 	}
 	known := loadKnown(*knownPath)
